@@ -1,8 +1,8 @@
 (** C02 obligation: all renderings of one document parse to one and the same result *)
-From OfxV Require Import Base.Prelude Base.SgmlBase Model.Sgml Model.SgmlSpec Proofs.SgmlNest Proofs.SgmlScan Proofs.SgmlFaithful Proofs.SgmlReject.
+From OfxV Require Import Base.Prelude Base.SgmlBase Model.Sgml Model.SgmlSpec Proofs.SgmlNest Proofs.SgmlScan Proofs.SgmlFaithful Proofs.SgmlReject Proofs.SgmlCfg.
 Local Open Scope N_scope.
-Theorem all_renderings_agree : forall d ws1 r1 ws2 r2,
+Theorem all_renderings_agree : forall g d ws1 r1 ws2 r2, cdata_lazy g = true ->
   wf_doc d = true -> ok_rendering ws1 r1 d -> ok_rendering ws2 r2 d ->
-  parse repaired (render ws1 r1) = parse repaired (render ws2 r2).
-Proof. exact all_renderings_agree_l. Qed.
+  parse g (render ws1 r1) = parse g (render ws2 r2).
+Proof. exact all_renderings_agree_g. Qed.
 Print Assumptions all_renderings_agree.
